@@ -82,7 +82,7 @@ def hashlm_class():
                 cond = torch.zeros(N, dtype=torch.long)
             elif cond.numel() == 1 and N != 1:
                 cond = cond.reshape(1).expand(N).contiguous()
-            out = dict(prev)
+            out = prev if getattr(self, "inplace_state", False) else dict(prev)
             out["cond"] = cond
             out["h"] = (cond * HT.C0 + HT.C1) % HT.P
             return out
@@ -133,6 +133,11 @@ def hashlm_class():
                 if bool(seen.any()):
                     logits = logits.clone()
                     logits[seen, eos] = float("-inf")
+            if getattr(self, "inplace_state", False):
+                # a model that keeps its state in the dictionary it was handed (nothing forbids that): callers
+                # that share one dictionary between independent draws get the previous draw's final state
+                prev["h"] = nh
+                return logits, prev
             nxt = dict(prev)
             nxt["h"] = nh
             return logits, nxt
